@@ -29,6 +29,8 @@ def _omp_run(pid, kinds, tier):
 def _c01_runs(tier):
     rs = []
     rs.append(Run(C(), "harness/p_c01.c", ["--mode=alias"], group="host-alias"))
+    rs.append(Run(C(), "harness/p_c01.c", ["--mode=djb"], group="host-djb"))
+    rs.append(Run(C(sse2=0, **MIN), "harness/p_c01.c", ["--mode=djb"], group="min-djb"))
     for mode in ("grid", "split", "big"):
         rs.append(Run(C(), "harness/p_c01.c", ["--mode=" + mode], group="host-" + mode))
         rs.append(Run(C(sse2=0, **MIN), "harness/p_c01.c", ["--mode=" + mode], group="min-" + mode))
@@ -37,7 +39,7 @@ def _c01_runs(tier):
 
 PROPS["C01"] = dict(
     level="exploration", runs=_c01_runs,
-    rule="(OpenMP build: the multi-core front ends, Strassen and M4RM products of C16's scenario list run under the ICB scheduler with the mini-GOMP runtime for teams 2..4 (thorough 1..5): result equals the reference model on every explored schedule, happens-before race detection) + complete product of declared alphabets: multiplication routes x parameters (k in {-1..17 sample incl. all of 2..8}, cutoffs) x shape triples x operand pattern pairs (dense pairs, sparse, identity, zero, and complete unit bases by bilinearity: l cyclic one-entry-per-row matrices for A, l for B), plus 'alias' cases where the two factors are distinct views of ONE parent matrix (common top-left corner / side by side / overlapping rows) for all shape triples of a boundary set; a case is (route, parameter, shape, patterns); non-trivial = the reference product is non-zero; distinct = distinct (operand digest, route, parameter)",
+    rule="(DJB: djb_compile + djb_apply_mzd on a zeroed target for A in 11 x 12 shapes (rows up to 130, 1..4-word rows) x 10 patterns and all single-entry A of small shapes, V of 14 widths (1..10 words: every residue of the word-wise row addition, with and without SSE2), compiled program checked for in-range row indices) + (OpenMP build: the multi-core front ends, Strassen and M4RM products of C16's scenario list run under the ICB scheduler with the mini-GOMP runtime for teams 2..4 (thorough 1..5): result equals the reference model on every explored schedule, happens-before race detection) + complete product of declared alphabets: multiplication routes x parameters (k in {-1..17 sample incl. all of 2..8}, cutoffs) x shape triples x operand pattern pairs (dense pairs, sparse, identity, zero, and complete unit bases by bilinearity: l cyclic one-entry-per-row matrices for A, l for B), plus 'alias' cases where the two factors are distinct views of ONE parent matrix (common top-left corner / side by side / overlapping rows) for all shape triples of a boundary set; a case is (route, parameter, shape, patterns); non-trivial = the reference product is non-zero; distinct = distinct (operand digest, route, parameter)",
     level_text="Bounded-exhaustive differential exploration: every multiplication entry point is executed on the complete Cartesian product of finite shape/pattern/parameter alphabets (all residues around 64-bit words, Strassen split limits, cubic/table switches) in a default and a minimum-cache/no-SSE2 build, and every result is compared bit for bit with an independent reference product; factors must be unchanged and padding zero; ASan/UBSan on.",
     level_note="Bounded: dimensions <= ~1400, fixed pattern alphabets (unit bases are complete only under bilinearity, which is assumed, not proved). OpenMP build: run under ICB here (quick: teams 2..4), the full team range in C16.",
     technique="bounded-exhaustive enumeration of input/parameter alphabets on the real code against a reference model",
